@@ -302,4 +302,70 @@ pub mod props {
     {
     }
 //@@ end
+
+//@@ lemma
+//@@ unit lemma.C16.roff_text_byte_is_guarded tags=C16 cfg=docgen
+    /// C16 "help text, names and metavariables can never be interpreted as roff requests or escapes", per byte of the escaping
+    /// table `escape` is proved to apply: user text of the page body (`Special*`) never puts `.` or `'` first at a line start; the
+    /// line-start flag is set after every newline written; a request argument (`Spaces`) never contains a newline, and its spaces
+    /// and backslashes are escaped; backslash and dash in text are escaped
+    #[cfg(feature = "docgen")]
+    pub proof fn lemma_c16_byte(meta: Escape, ap: Apostrophes, c: u8, at_start: bool)
+        ensures
+            esc_byte(meta, ap, c, at_start).len() > 0,
+            body_meta(meta) && at_start ==> !ctl(esc_byte(meta, ap, c, at_start)[0]), // #text_byte_at_line_start_is_guarded
+            body_meta(meta) ==> forall|p: int| 0 <= p < esc_byte(meta, ap, c, at_start).len() - 1 ==> esc_byte(meta, ap, c, at_start)[p] != 10, // #newline_only_as_the_last_byte_written
+            body_meta(meta) && esc_byte(meta, ap, c, at_start).last() == 10 ==> esc_flag(meta, ap, c), // #line_start_flag_set_after_every_newline_written
+            meta == Escape::Spaces ==> forall|p: int| 0 <= p < esc_byte(meta, ap, c, at_start).len() ==> esc_byte(meta, ap, c, at_start)[p] != 10, // #request_argument_stays_on_its_line
+            meta == Escape::Spaces && (c == 32 || c == 92) ==> esc_byte(meta, ap, c, at_start) == seq![92u8, c], // #space_and_backslash_in_request_arguments_escaped
+            body_meta(meta) && (c == 92 || c == 45) ==> esc_byte(meta, ap, c, at_start) == seq![92u8, c], // #backslash_and_dash_in_text_escaped
+    {
+        let e = esc_byte(meta, ap, c, at_start);
+        if body_meta(meta) {
+            let p1 = if at_start && (c == 46 || c == 39) { seq![92u8, 38u8] } else { Seq::<u8>::empty() };
+            let p2 = if c == 92 || c == 45 { seq![92u8] } else { Seq::<u8>::empty() };
+            let p3 = if ap == Apostrophes::Handle && c == 39 { apos() } else if meta == Escape::SpecialNoNewline && c == 10 { seq![32u8] } else { seq![c] };
+            assert(e =~= p1 + p2 + p3);
+            if c == 92 || c == 45 { assert(e =~= seq![92u8, c]); }
+        }
+    }
+//@@ end
+
+//@@ lemma
+//@@ unit lemma.C16.roff_text_never_opens_a_request tags=C16 cfg=docgen
+    /// C16 "every line starting with a control character is one of bpaf's own requests": a whole fragment of user text, whatever
+    /// its bytes, never produces an output line that starts with `.` or `'`
+    #[cfg(feature = "docgen")]
+    pub proof fn lemma_c16_fragment(meta: Escape, ap: Apostrophes, bs: Seq<u8>, n: int, a: bool)
+        requires body_meta(meta), 0 <= n <= bs.len(),
+        ensures ({
+            let (o, f) = esc_frag(meta, ap, bs, n, a);
+            &&& (forall|p: int| 1 <= p < o.len() && o[p - 1] == 10 ==> !ctl(#[trigger] o[p])) // #no_request_character_after_a_newline
+            &&& (a && o.len() > 0 ==> !ctl(o[0])) // #nor_at_the_start_when_the_fragment_starts_a_line
+            &&& (if o.len() == 0 { f == a } else { o.last() == 10 ==> f }) // #flag_over_approximates_line_starts
+        }),
+        decreases n,
+    {
+        if n > 0 {
+            lemma_c16_fragment(meta, ap, bs, n - 1, a);
+            let (o1, f1) = esc_frag(meta, ap, bs, n - 1, a);
+            let e = esc_byte(meta, ap, bs[n - 1], f1);
+            lemma_c16_byte(meta, ap, bs[n - 1], f1);
+            let o = o1 + e;
+            assert(esc_frag(meta, ap, bs, n, a).0 == o);
+            assert forall|p: int| 1 <= p < o.len() && o[p - 1] == 10 implies !ctl(#[trigger] o[p]) by {
+                if p < o1.len() {
+                    assert(o[p] == o1[p] && o[p - 1] == o1[p - 1]);
+                } else if p == o1.len() {
+                    assert(o[p - 1] == o1.last());
+                    assert(o[p] == e[0]);
+                } else {
+                    assert(o[p - 1] == e[p - 1 - o1.len()]);
+                }
+            }
+            if o1.len() == 0 { assert(o =~= e); } else { assert(o[0] == o1[0]); }
+            assert(o.last() == e.last());
+        }
+    }
+//@@ end
 }
